@@ -108,3 +108,61 @@ package conn
 //@ func MakeSecretConnection
 //@   ensures authenticated: result1 == nil ==> (result0 != nil && result0.remPubKey == remPubKey && keySigned(remPubKey, challenge[:], remSignature))
 //@   atcall Transcript.ExtractBytes bound: true
+
+// ---- C17: multiplexed connection - packetisation and reassembly of one channel ----
+//@ import tmp2p github.com/tendermint/tendermint/proto/tendermint/p2p
+//@ import log github.com/tendermint/tendermint/libs/log
+//@ extern log.Logger.Debug
+//@   assigns nothing
+
+// Reassembly: a packet that would exceed the channel's receive capacity is refused and nothing is buffered; otherwise
+// the payload is appended; on EOF the message handed up is exactly the concatenation of the payloads since the last
+// EOF and the buffer is empty again. The buffer never holds more than the configured capacity.
+//@ func Channel.recvPacketMsg
+//@   requires cap: len(ch.recving) <= ch.desc.RecvMessageCapacity
+//@   assigns ch.recving
+//@   ensures bounded: len(ch.recving) <= ch.desc.RecvMessageCapacity
+//@   ensures over: ch.desc.RecvMessageCapacity < old(len(ch.recving)) + len(packet.Data) ==> (result1 != nil && result0 == nil && ch.recving == old(ch.recving))
+//@   ensures partial: (result1 == nil && !packet.EOF) ==> (result0 == nil && ch.recving == concat(old(ch.recving), packet.Data))
+//@   ensures whole: (result1 == nil && packet.EOF) ==> (result0 == concat(old(ch.recving), packet.Data) && len(ch.recving) == 0)
+
+// Packetisation: the next packet carries the channel id, the first min(max, len) bytes of what is being sent, EOF
+// exactly when that was all of it, and what remains to be sent is the rest.
+//@ func Channel.nextPacketMsg
+//@   requires max: ch.maxPacketMsgPayloadSize >= 1
+//@   ensures id: result.ChannelID == ch.desc.ID
+//@   ensures data: result.Data == old(ch.sending)[0:ite(ch.maxPacketMsgPayloadSize < old(len(ch.sending)), ch.maxPacketMsgPayloadSize, old(len(ch.sending)))]
+//@   ensures eof: result.EOF <==> old(len(ch.sending)) <= ch.maxPacketMsgPayloadSize
+//@   ensures rest: !result.EOF ==> ch.sending == old(ch.sending)[ch.maxPacketMsgPayloadSize:old(len(ch.sending))]
+//@   ensures done: result.EOF ==> len(ch.sending) == 0
+
+// The receive loop hands a message to the reactors only for a channel that exists on this connection and only when
+// reassembly completed without error; a packet for an unknown channel or one that breaks the capacity stops the
+// connection (the peer is dropped) instead.
+//@ import protoio github.com/tendermint/tendermint/libs/protoio
+//@ import flowrate github.com/tendermint/tendermint/libs/flowrate
+//@ import service github.com/tendermint/tendermint/libs/service
+// ASSUMED frames: the reactors' receive callback, the error path, the rate monitor and the wire reader do not touch the
+// channels' reassembly buffers.
+//@ extern MConnection.onReceive
+//@   assigns except(conn.Channel)
+//@ func MConnection.stopForError
+//@   trusted
+//@   assigns except(conn.Channel)
+//@ extern protoio.Reader.ReadMsg
+//@   assigns nothing
+//@ extern flowrate.Monitor.Limit
+//@   assigns nothing
+//@ extern flowrate.Monitor.Update
+//@   assigns nothing
+//@ extern service.BaseService.IsRunning
+//@   assigns nothing
+//@ extern log.Logger.Info
+//@   assigns nothing
+//@ extern log.Logger.Error
+//@   assigns nothing
+//@ func MConnection.recvRoutine
+//@   requires cap: forall(k, (has(c.channelsIdx, k) && c.channelsIdx[k] != nil) ==> len(c.channelsIdx[k].recving) <= c.channelsIdx[k].desc.RecvMessageCapacity)
+//@   loop 1 invariant cap: forall(k, (has(c.channelsIdx, k) && c.channelsIdx[k] != nil) ==> len(c.channelsIdx[k].recving) <= c.channelsIdx[k].desc.RecvMessageCapacity)
+//@   loop 2 invariant t: true
+//@   atcall MConnection.onReceive known: has(c.channelsIdx, arg0) && c.channelsIdx[arg0] != nil && len(arg1) <= c.channelsIdx[arg0].desc.RecvMessageCapacity
